@@ -42,8 +42,9 @@ func convertReflectValueToTypeContext(ctx context.Context, rv reflect.Value, rt 
 		// if reflect.Type is interface or the types match, return the provided reflect.Value
 		return rv, nil
 	}
-	if rv.Type().ConvertibleTo(rt) {
+	if rv.Type().ConvertibleTo(rt) && !(rv.Kind() == reflect.Slice && rt.Kind() == reflect.Array && rv.Len() < rt.Len()) {
 		// if reflect can covert, do that conversion and return
+		// (a slice shorter than the array is converted element by element below, reflect would panic)
 		return rv.Convert(rt), nil
 	}
 	if (rv.Kind() == reflect.Slice || rv.Kind() == reflect.Array) &&
@@ -128,6 +129,9 @@ func convertSliceOrArray(ctx context.Context, rv reflect.Value, rt reflect.Type)
 		value = reflect.MakeSlice(rt, rv.Len(), rv.Len())
 	} else {
 		// make array
+		if rv.Len() > rt.Len() {
+			return rv, errInvalidTypeConversion
+		}
 		value = reflect.New(rt).Elem()
 	}
 
